@@ -27,8 +27,25 @@ def _log(rec):
         if not path:
             return
         f = STATE['log'] = open(path, 'a')
-    f.write(json.dumps(rec, default=repr) + '\n')
+    try:
+        line = json.dumps(rec, default=repr)
+    except BaseException:  # noqa: BLE001  (a digest holding symbolic values, serialised with tracing off)
+        rec = {k: v for k, v in rec.items() if k not in ('sym', 'dg')}
+        rec['dg'] = '<unserialisable digest>'
+        line = json.dumps(rec, default=repr)
+    f.write(line + '\n')
     f.flush()
+
+
+def _dumps(x) -> str:
+    """digest -> text; a digest that still holds symbolic values (a failing path's details) must not break the harness"""
+    try:
+        return json.dumps(x, default=repr, sort_keys=True)
+    except BaseException:  # noqa: BLE001  (called with tracing off: repr() of a symbolic value raises engine-internal errors)
+        try:
+            return json.dumps([str(x[0]), '<unserialisable digest>'])
+        except BaseException:  # noqa: BLE001
+            return '["?", "<unserialisable digest>"]'
 
 
 def mktext(args) -> str:
@@ -107,8 +124,8 @@ def run(body, args) -> bool:
         except Exception as e:  # noqa: BLE001
             nok, ntag, ndg = False, 'native-exception', repr(e)
         STATE['witnessed'] += 1
-        sdg = json.dumps([tag, dg], default=repr, sort_keys=True)
-        nds = json.dumps([ntag, ndg], default=repr, sort_keys=True)
+        sdg = _dumps([tag, dg])
+        nds = _dumps([ntag, ndg])
         match = (sdg == nds) and (sym_ok == nok)
         # a native failure is reported as a violation candidate by itself; an artifact is a disagreement between two passing runs
         if not match and nok and sym_ok:
